@@ -9,6 +9,7 @@ import (
 	"sort"
 	"strings"
 	"testing"
+	"testing/synctest"
 	"time"
 
 	"verif/sim/netsim"
@@ -318,11 +319,44 @@ func runC17(t *testing.T, spec RunSpec) *RunResult {
 		w.Run(sched, lim, complete)
 		// give stalled / down scenarios the time in which the documented 10 s enqueue timer would fire
 		if cfg.Fault == "flood-down" || cfg.Fault == "stall" || cfg.Fault == "down" {
-			for i := 0; i < 20 && w.Now() < 45*time.Second; i++ {
+			// a Send that also addresses the dead peer waits up to 10 s for its full queue before it drops the
+			// message and goes on to the next destination: traffic to healthy peers is delayed, not stopped.
+			// Bound: 10 s per message that the other goroutines address to the victim, plus slack.
+			bound := 45 * time.Second
+			for g, seq := range cfg.Senders {
+				if cfg.Fault == "flood-down" && g == 0 {
+					continue
+				}
+				for _, m := range seq {
+					for _, to := range m.To {
+						if to == cfg.Victim {
+							bound += 10 * time.Second
+						}
+					}
+				}
+			}
+			settled := func() bool {
+				for _, st := range states {
+					if !st.done && !(cfg.Fault == "flood-down" && st == states[0]) {
+						return false
+					}
+				}
+				return cw.net.PendingBytes() == 0
+			}
+			for i := 0; i < 400 && w.Now() < bound && !(w.Now() > 45*time.Second && settled()); i++ {
 				time.Sleep(time.Second + 31*time.Microsecond)
-				for _, name := range cw.net.Releasable() {
-					if !(cfg.Fault == "stall" && strings.HasPrefix(name, victimHost+":")) {
-						cw.net.Release(name)
+				// drain everything that may flow (canonical order), so that only the fault holds traffic back
+				for round := 0; round < 2000; round++ {
+					synctest.Wait()
+					released := false
+					for _, name := range cw.net.Releasable() {
+						if !(cfg.Fault == "stall" && strings.HasPrefix(name, victimHost+":")) {
+							cw.net.Release(name)
+							released = true
+						}
+					}
+					if !released {
+						break
 					}
 				}
 			}
